@@ -257,12 +257,18 @@ misses: Dict[int, int] = {}
 
 def patch(code):
     code = bytearray(code)
+    reported = set()
     i = 0
     n = len(code)
     while i < n:
         op = code[i]
         if not op in table:
-            print("missing opcode %d. code: " % op, repr(str(code)))
+            # Report each unknown opcode once per code string, without the code
+            # string itself: dumping all of it for every such byte made the
+            # output (and the time) quadratic in the size of the file.
+            if op not in reported:
+                reported.add(op)
+                print("missing opcode %d at offset %d" % (op, i))
             misses[op] = misses.get(op, 0) + 1
         code[i] = table.get(op, op)
         i += 1
